@@ -67,7 +67,8 @@ def run(pid, only, tests=False, checks=None):
             meta["confirmed"] = conf
             res = {}
             for cp in (checks or [pid]):
-                p = subprocess.run([os.path.join(HERE, "check"), cp], env=dict(os.environ, XYZPY_VERIF_REPO=root), capture_output=True, text=True)
+                p = subprocess.run([os.path.join(HERE, "check"), cp], env=dict(os.environ, XYZPY_VERIF_REPO=root, PYVC_EVIDENCE_DIR=os.path.join(scratch, "evidence")),
+                                   capture_output=True, text=True)
                 lines = [l for l in p.stdout.splitlines() if l.startswith(("VIOLATION", "KNOWN-FINDING")) or "failed obligation" in l]
                 res[cp] = dict(exit=p.returncode, lines=lines[:12], summary=[l for l in p.stdout.splitlines() if "obligations discharged" in l][-1:])
             meta["check"] = res
